@@ -409,7 +409,7 @@ func c20Enumerate(r *mc.Report, n, depth, shard, nshards int) {
 func init() {
 	mc.Register(&mc.Check{
 		Prop:        "C20",
-		Rule:        "all module trees (ordered forests passed to AddModules) with <=3 leaves at module nesting <=3 and 4 leaves at nesting <=1 (quick); 4 leaves at nesting <=3 and 5 leaves at nesting <=1 (thorough); every leaf drawn from {Add ok, Add keyed ok, Add duplicating, Add with an invalid option combination, Remove of an unkeyed type, Remove of a type that only has keyed registrations, RemoveKeyed, nil entry}: a twin collection receives the flattened calls directly, stopping at the first failure; compared: deep dumps of both collections, Contains/ContainsKeyed/Count/ToSlice, Build verdict and the answers of the whole identity universe of both providers, building a module from a caller-owned slice leaves the slice unchanged; applying the very same module values to a second fresh collection gives the same error and the same registrations; and the error chain (exactly one ModuleError per enclosing module, outermost first, then the direct call's error; same errors.Is/As classes); trees with nested modules are judged three times: with unique module names, with one name shared by all modules, and with names repeating every second nesting level. distinct = (position of the failing leaf, error class, number of modules) classes.",
+		Rule:        "all module trees (ordered forests passed to AddModules) with <=3 leaves at module nesting <=3 and 4 leaves at nesting <=1 (quick); 4 leaves at nesting <=3 and 5 leaves at nesting <=1 (thorough); every leaf drawn from {Add ok, Add keyed ok, Add duplicating, Add with an invalid option combination, Remove of an unkeyed type, Remove of a type that only has keyed registrations, RemoveKeyed, nil entry}: a twin collection receives the flattened calls directly, stopping at the first failure; compared: deep dumps of both collections, Contains/ContainsKeyed/Count/ToSlice, Build verdict and the answers of the whole identity universe of both providers, building a module from a caller-owned slice leaves the slice unchanged; applying the very same module values to a second fresh collection gives the same error and the same registrations; and the error chain (exactly one ModuleError per enclosing module, outermost first, then the direct call's error; same errors.Is/As classes); trees with nested modules are judged three times: with unique module names, with one name shared by all modules, and with names repeating every second nesting level; forests of <=3 (thorough 4) leaves additionally with all-scoped, all-transient and rotating lifetimes of the Add entries. distinct = (position of the failing leaf, error class, number of modules) classes.",
 		Assume:      []string{"both collections register the very same function values, so dumps are comparable without renaming"},
 		MinOutcomes: 5,
 		Jobs: func(tier string) []mc.Job {
